@@ -663,6 +663,44 @@ def case_files(ctx):
                         ctx.count("cli_vs_library_compared")
                         same_formula(ctx, tail[0] + "[file]", label, F, ref)
                         ctx.judged(("file", tool, kind, fmt, tuple(tail[:-1]), len(spelled)), nontrivial=True, sample={"command": label})
+        # degenerate graphs that only a file can name: no vertices at all, a single vertex, isolated vertices only
+        K3 = Graph(3)
+        for e in ((1, 2), (2, 3), (1, 3)):
+            K3.add_edge(*e)
+        for nv, texts in ((0, {"kthlist": "0\n", "dimacs": "p edge 0 0\n"}), (1, {"kthlist": "1\n1 : 0\n", "dimacs": "p edge 1 0\n"}),
+                          (3, {"kthlist": "3\n1 : 0\n2 : 0\n3 : 0\n", "dimacs": "p edge 3 0\n"})):
+            for fmt, text in texts.items():
+                path = os.path.join(tmp, "degenerate%d.%s" % (nv, fmt))
+                with open(path, "w") as f:
+                    f.write(text)
+                for tool in ("cnfgen", "pbgen"):
+                    K = classes(tool)
+                    cases = [(["iso", "complete", "3", "-e", path], lambda: g.GraphIsomorphism(K3, Graph(nv), formula_class=K)),
+                             (["iso", path, "-e", "complete", "3"], lambda: g.GraphIsomorphism(Graph(nv), K3, formula_class=K)),
+                             (["iso", path, "-e", path], lambda: g.GraphIsomorphism(Graph(nv), Graph(nv), formula_class=K)),
+                             (["iso", path], lambda: g.GraphAutomorphism(Graph(nv), formula_class=K)),
+                             (["kcolor", "2", path], lambda: g.GraphColoringFormula(Graph(nv), 2, formula_class=K)),
+                             (["subgraph", "-G", "complete", "3", "-H", path], lambda: g.SubgraphFormula(K3, Graph(nv), formula_class=K)),
+                             (["domset", "1", path], lambda: g.DominatingSet(Graph(nv), 1, formula_class=K))]
+                    for tail, make_ref in cases:
+                        label = "%s %s" % (tool, " ".join("<graph file with %d vertices, no edges>" % nv if t == path else t for t in tail))
+                        try:
+                            ref = make_ref()
+                        except Exception as e:       # noqa: BLE001 - the library declines: so must the command line
+                            ref = None
+                        st, F = run_cli(tool, tail, 1)
+                        ctx.count("graph_file_inputs")
+                        ctx.count("degenerate_graph_files")
+                        if ref is None:
+                            if st == "ok":
+                                ctx.violation("%s:cli-accepts-what-the-library-refuses" % tail[0], "%s builds a formula, the library call raises" % label)
+                            continue
+                        if st != "ok":
+                            ctx.violation("%s:file-argument-fails" % tail[0], "%s: %s %r" % (label, st, F))
+                            continue
+                        ctx.count("cli_vs_library_compared")
+                        same_formula(ctx, tail[0] + "[file]", label, F, ref)
+                        ctx.judged(("degenerate-file", tool, nv, fmt, tuple(tail[:2]), tail.index(path)), nontrivial=True, sample={"command": label})
         # dimacs sub-command: the formula of the file
         path = os.path.join(tmp, "f.cnf")
         cls = [[1, -2], [], [3, 3, -1], [-4]]
@@ -888,6 +926,35 @@ def case_output_options(ctx):
                     ctx.violation("output:-o:also-prints", "cnfgen -o <file> %s also wrote to stdout" % " ".join(base))
             else:
                 ctx.violation("output:-o:fails", "cnfgen -o <file> %s: %r" % (" ".join(base), o))
+            # without -of the format follows the extension of the output file name (.opb, .tex), DIMACS otherwise
+            if base == bases[0]:
+                for fname, fmt in (("opb", "dimacs"), ("tex", "dimacs"), ("xopb", "dimacs"), ("out.opb.bak", "dimacs"), ("out.texx", "dimacs"),
+                                   ("out", "dimacs"), ("out.txt", "dimacs"), ("latex", "dimacs"), ("out.opb", "opb"), ("a.b.opb", "opb"),
+                                   ("out.tex", "latex"), ("dimacs.tex", "latex"), ("cnf.opb", "opb")):
+                  for relative in (False, True):
+                    pth = os.path.join(tmp, fname)
+                    if relative:
+                        here = os.getcwd()
+                        os.chdir(tmp)           # the name as typed in the directory itself: 'opb', 'out.opb'
+                        try:
+                            o = run_main("cnfgen", ["-q", "-o", fname] + base)
+                        finally:
+                            os.chdir(here)
+                    else:
+                        o = run_main("cnfgen", ["-q", "-o", pth] + base)
+                    ctx.count("output_option_checks")
+                    ctx.count("output_file_names_checked")
+                    if o.exc is not None or o.rc not in (0, None) or not os.path.exists(pth):
+                        ctx.violation("output:-o:fails", "cnfgen -q -o <dir>/%s %s: %r" % (fname, " ".join(base), o))
+                        continue
+                    text = open(pth).read()
+                    os.unlink(pth)
+                    got = "opb" if text.lstrip().startswith("* #variable=") else "dimacs" if text.lstrip().startswith("p cnf") else \
+                        "latex" if "\\" in text else "unknown"
+                    if got != fmt:
+                        ctx.violation("output:-o:format-of-file-name", "cnfgen -q -o <dir>/%s %s wrote %s, the name asks for %s"
+                                      % (fname, " ".join(base), got, fmt))
+                    ctx.judged(("output-name", fname, relative), nontrivial=True, sample={"output_file": fname, "format": got})
             for tool in ("cnfgen", "pbgen"):
                 o = run_main(tool, (["-q", "-of", "opb"] if tool == "cnfgen" else ["-q"]) + base)
                 ctx.count("output_option_checks")
